@@ -19,6 +19,9 @@ type ExpRecord struct {
 	Time       *time.Time // explicit instant, already converted to the zone in force (nil: only parse)
 	// SkipContent: only framing / well-formedness is judged (e.g. keys that are not valid UTF-8)
 	SkipContent bool
+	// QuotingNotJudged: whether string-like values are quoted is C05's clause; checks of other properties that read logfmt
+	// records set this and compare the parsed values only
+	QuotingNotJudged bool
 }
 
 // Problem is a discrepancy with a signature (see known_findings.json).
@@ -142,7 +145,8 @@ func CheckLogfmtRecord(payload []byte, exp ExpRecord, errorDump bool) *Problem {
 		if pairs[i].Key != k {
 			return problem("C05/members", "pair #%d has key %q, want %q; payload %s", i, pairs[i].Key, k, Short(string(payload)))
 		}
-		if pairs[i].Kind != "quoted" {
+		// (the timestamp is not a "string-like value": it may stand bare when it tokenises as one word)
+		if pairs[i].Kind != "quoted" && !exp.QuotingNotJudged && k != "time" {
 			return problem("C05/members", "field %q must be quoted, got %q", k, pairs[i].Raw)
 		}
 	}
@@ -186,12 +190,12 @@ func CheckLogfmtRecord(payload []byte, exp ExpRecord, errorDump bool) *Problem {
 		if len(seen) != 3 {
 			return problem("C05/caller", "caller pairs missing (found %d of caller.file/line/function); payload %s", len(seen), Short(string(payload)))
 		}
-		if seen["caller.file"].Kind != "quoted" || seen["caller.function"].Kind != "quoted" || seen["caller.line"].Kind != "bare" {
+		if !exp.QuotingNotJudged && (seen["caller.file"].Kind != "quoted" || seen["caller.function"].Kind != "quoted" || seen["caller.line"].Kind != "bare") {
 			return problem("C05/caller", "caller pairs have wrong shapes: %q %q %q", seen["caller.file"].Raw, seen["caller.line"].Raw, seen["caller.function"].Raw)
 		}
 		rest = keep
 	}
-	if err := MatchLogfmtAttrs(rest, Normalize(exp.Attrs), true); err != nil {
+	if err := MatchLogfmtAttrs(rest, Normalize(exp.Attrs), !exp.QuotingNotJudged); err != nil {
 		return problem("C05/attrs", "%v; logged [%s]; payload %s", err, Describe(exp.Attrs), Short(string(payload)))
 	}
 	return nil
